@@ -151,6 +151,14 @@ def make_cmd(c: dict):
     t = c["t"]
     if t == "load":
         data = gen_bytes(c["s"], c["l"])
+        if c.get("ba"):
+            # the caller hands over a buffer it goes on using (a readinto() chunk loop): what counts is its content at the
+            # time it was given to the builder
+            buf = bytearray(data)
+            cmd = K.CmdLoad(c["a"], buf, c["m"])
+            for j in range(0, len(buf), 3):
+                buf[j] ^= 0xA5
+            return cmd, ("load", c["a"], c["l"], data, c["m"] & 0xFFF)
         return K.CmdLoad(c["a"], data, c["m"]), ("load", c["a"], c["l"], data, c["m"] & 0xFFF)
     if t == "fill":
         return K.CmdFill(c["a"], c["p"], c["l"]), ("fill", c["a"], c["l"], fill_word(c["p"]))
@@ -307,7 +315,10 @@ class Run:
 
         p = self.plan
         self.kek = gen_bytes(p["kek_seed"], 32)
-        self.td = td = tempfile.mkdtemp(prefix="verif-c04-")
+        if getattr(self, "td", None):
+            td = self.td
+        else:
+            self.td = td = tempfile.mkdtemp(prefix="verif-c04-")
         adv = p.get("adv") or {}
         opts = [f"flags = {0x8 | (0x8000 if p.get('sha') else 0):#x};", f"buildNumber = {p['build']:#x};", f'productVersion = "{p["pv"]}";', f'componentVersion = "{p["cv"]}";', 'secureBinaryVersion = "2.1";']
         self.expected_ts = None
@@ -419,6 +430,33 @@ class Run:
                 exp.append(tup)
             sections.append(S.BootSectionV2(s["uid"], *cmds, hmac_count=s["hmac_count"]))
             self.expected.append((s["uid"], exp))
+        # the sections are edited after they were put together (public item assignment, append, attribute setters):
+        # the file must carry them as they stand at export time
+        for e in p.get("edits") or []:
+            si = e["s"] % len(sections)
+            sec = sections[si]
+            uid, exp = self.expected[si]
+            kind = e["e"]
+            if kind == "replace" and len(sec):
+                ci = e["c"] % len(sec)
+                cmd, tup = make_cmd(e["cmd"])
+                sec[ci] = cmd
+                exp[ci] = tup
+            elif kind == "append":
+                cmd, tup = make_cmd(e["cmd"])
+                sec.append(cmd)
+                exp.append(tup)
+            elif kind == "set_data" and len(sec):
+                loads = [ci for ci in range(len(sec)) if exp[ci][0] == "load"]
+                if loads:
+                    ci = loads[e["c"] % len(loads)]
+                    data = gen_bytes(e["seed"], e["len"])
+                    sec[ci].data = data
+                    exp[ci] = ("load", exp[ci][1], len(data), data, exp[ci][4])
+            elif kind == "set_uid" and p["version"] == "2.1":
+                sec.uid = e["uid"]
+                self.expected[si] = (e["uid"], exp)
+            self.probe("section_edited_after_build:" + kind)
         common = dict(product_version=p["pv"], component_version=p["cv"], build_number=p["build"], **kw)
         key = p["key"]
         if p["version"] == "2.0":
@@ -583,10 +621,19 @@ class Run:
 
     def execute(self) -> dict:  # noqa: C901
         p = self.plan
+        if p.get("tz"):
+            # the process runs in another time zone (runs are executed in forked copies of the worker, so this does not leak)
+            import time as _time
+
+            os.environ["TZ"] = p["tz"]
+            _time.tzset()
+            self.probe("process_in_a_time_zone_other_than_utc")
         if p.get("prelude"):
             # another image was built and exported in this process before: nothing of it may leak into this one
             sub = Run(p["prelude"])
             sub.execute()
+            if getattr(sub, "td", None):
+                self.td = sub.td  # both are built in the same project folder: the same file names, other contents
             self.records += sub.records
             self.log.add("prelude", sub.log.digest())
             self.probe("image_built_after_another_in_the_same_process")
@@ -951,12 +998,38 @@ def gen_plan(family: str, i: int, rng: random.Random, tier: str, _depth: int = 0
         "build": rng.choice([0, 1, 0xFFFF, rng.randrange(1 << 32)]), "sha": rng.random() < 0.5, "sections": sections, "t0_us": rng.choice([0, rng.randrange(10**12)]), "ops": [],
     }
     if rng.random() < 0.25:
+        plan["tz"] = rng.choice(["XXX-5:30", "PST8", "CET-1", "NPT-5:45", "XYZ+9:30"])
+    if nsec >= 2 and version == "2.1" and rng.random() < 0.12:  # (SB2.0 refuses a second section with the same identifier)
+        # two sections that are equal by value (same identifier, same commands)
+        sections[rng.randrange(1, nsec)] = copy.deepcopy(sections[0])
+    if rng.random() < 0.25:
         to_bd_plan(plan, rng)
+    else:
+        for s_ in sections:
+            for c in s_["cmds"]:
+                if c["t"] == "load" and rng.random() < 0.15:
+                    c["ba"] = True
+        if rng.random() < 0.3:
+            edits = []
+            for _ in range(rng.randint(1, 3)):
+                kind = rng.choice(["replace", "append", "set_data", "set_uid"])
+                e = {"e": kind, "s": rng.randrange(8), "c": rng.randrange(8)}
+                if kind in ("replace", "append"):
+                    e["cmd"] = gen_cmd(rng)
+                elif kind == "set_data":
+                    e.update(seed=rng.randrange(1 << 30), len=rng.choice([1, 16, 17, 100, 1000, rng.randint(1, 600)]))
+                else:
+                    e["uid"] = rng.choice([0, 5, 0xFFFFFFFF, rng.randrange(1 << 32)])
+                edits.append(e)
+            plan["edits"] = edits
     if rng.random() < 0.35:
         plan["pre"] = [rng.choice(["str", "export", "export", "raw_size", "update"]) for _ in range(rng.randint(1, 3))]
     if family == "control":
         if _depth == 0 and rng.random() < 0.2:
             plan["prelude"] = gen_plan("control", i, rng, tier, _depth=1)
+            if plan.get("via_bd") and not plan["prelude"].get("via_bd"):
+                plan["prelude"].pop("edits", None)
+                to_bd_plan(plan["prelude"], rng)  # two BD builds in one project folder
         return plan
     ops = plan["ops"]
     for _ in range(rng.randint(1, 6)):
@@ -995,6 +1068,12 @@ def reductions(plan: dict):
         yield c
     if plan.get("pre"):
         yield from ddmin_lists(plan, [["pre"]])
+    if plan.get("edits"):
+        yield from ddmin_lists(plan, [["edits"]])
+    if plan.get("tz"):
+        c = copy.deepcopy(plan)
+        c.pop("tz")
+        yield c
     yield from ddmin_lists(plan, [["ops"]])
     if len(plan["sections"]) > 1:
         yield from ddmin_lists(plan, [["sections"]])
